@@ -55,7 +55,7 @@ func init() {
 		assumptions: []string{
 			"'rejected before memory is allocated' is observed through the per-worker address-space cap (6 GiB): an allocation sized by a count beyond the documented limits aborts the worker, counts inside the limits may legitimately allocate up to about 2.5 GB",
 			"a nil error together with a value different from the original is not a violation of this property and is only counted (decode_success_after_fault)",
-			"a decode or use that makes no progress for 40 s of wall time is reported as a hang (normal cases take microseconds to seconds)",
+			"a decode or use that makes no progress for 90 s of wall time is reported as a hang (normal cases take microseconds to seconds)",
 		},
 		real:  realCode,
 		stubs: streamStubs,
